@@ -167,7 +167,9 @@ PROPS['C01'] = dict(
     explanation="Theorems C01_* prove that every map-iteration site of the consensus code is insensitive to the iteration order: sort of "
                 "entries with distinct keys is unique, the channel-definition update of Plugin.outcome (removal loop, candidate slice sorted by "
                 "(id, hash)), ReportableChannels, the mode tie-break and the Mercury frequency-map selectors give one result for every "
-                "permutation; the pre-repair id-only comparator is refuted by a witness. All model functions are pure functions of "
+                "permutation; C01_outcome_step_order_independent composes them: the WHOLE Plugin.outcome step with an explicit, arbitrary "
+                "iteration order at each of its five range-over-map sites commits the same outcome (and fails under every order if it "
+                "fails under one); the pre-repair id-only comparator is refuted by a witness. All model functions are pure functions of "
                 "(config, seqNr, previous outcome, observations). The implementation is checked against this by repeated evaluation on fresh "
                 "instances (byte comparison) and by the per-round correspondence of the history projection.",
     assumptions=["MakeChannelHash (SHA-256) distinguishes distinct definitions of one channel id",
@@ -191,13 +193,15 @@ PROPS['C10'] = dict(
                 "the flattened slices are canonical (sorted by distinct ids, any map order), that decoding any byte string is total (never a "
                 "panic) and that version 0 only encodes representable values. The byte-level model of both codecs is compared with the Go "
                 "codecs on every run (Encode bytes predicted exactly, Decode structure), and the C10 predicate (fields preserved, v0 seconds, "
-                "canonical, decode-then-encode stable, no panic) is evaluated on the Go results. PARTIAL: the composed whole-outcome "
-                "round-trip is not yet a single Coq theorem.",
+                "canonical, decode-then-encode stable, no panic) is evaluated on the Go results. The composed statements are Coq theorems: "
+                "C10_decode_encode (for every well-formed outcome of any size, decode(encode o) = the outcome, validity starts floored to "
+                "seconds under version 0), C10_fields_preserved (field by field) and C10_reencode_stable (encode(decode(encode o)) gives the "
+                "same bytes).",
     assumptions=["protobuf-go byte-level decoding of arbitrary input is as modelled in Wire.v (compared on generated and mutated messages)",
                  "lifecycle stage strings are ASCII (reachable states hold three ASCII constants)"],
     level_text="Coq theorems for the wire layer, stream-value round-trip, canonical ordering, total decoding and v0 range errors over a "
-               "byte-level model of the two outcome codecs; model tied to the Go codecs by byte-exact differential testing. The composed "
-               "decode(encode o) statement is checked on the implementation, not yet proved (partial).",
+               "byte-level model of the two outcome codecs, composed into decode(encode o) = o (v0: seconds), field preservation and "
+               "re-encode stability for whole outcomes of any size; model tied to the Go codecs by byte-exact differential testing.",
     level_note="Trusted: Coq kernel + vm_compute; hand-written byte-level model of protobuf-go marshalling for these messages; harness. Axioms: none.",
 )
 
@@ -216,11 +220,15 @@ PROPS['C16'] = dict(
     explanation="Theorems C16_* prove the binary round-trip of every stream value, the LLO offchain config accept-iff-valid law (D5), the "
                 "two's-complement word codecs (int192, onchain configs) with their range/length/version/min<=max rejections. The byte-level "
                 "models (incl. the observation decoder over proto maps in any order and ValidateObservation) are compared with the Go "
-                "decoders on every run and the round-trip / rejection predicate is evaluated on the Go results. PARTIAL: observation-envelope "
-                "and JSON codecs have no round-trip theorem (correspondence + predicate only).",
+                "decoders on every run and the round-trip / rejection predicate is evaluated on the Go results. C16_observation_roundtrip proves "
+                "the observation envelope at byte level for ANY order of the proto map entries and removal ids (full uint64 timestamps via "
+                "the legacy/new field pair, duplicate removal id refused); the encoder model reproduces Go's Encode bytes exactly once told "
+                "the map order Go used (checked on every observation case). PARTIAL: the JSON-based retirement report and Mercury offchain "
+                "config have no Coq model (round-trip verdict computed on the implementation).",
     assumptions=["protobuf-go / encoding/json library behaviour as modelled or exercised", "byte strings are shorter than 2^64 bytes"],
     level_text="Coq theorems for stream-value, config and int192 codecs (round trip, accept-iff-valid, rejections) over byte-level models tied "
-               "to the Go codecs by differential testing; observation envelope and JSON codecs checked on the implementation (partial).",
+               "to the Go codecs by differential testing, incl. the byte-level observation envelope for any proto-map order; the two "
+               "JSON-based codecs (retirement report, Mercury offchain config) are checked on the implementation only (partial).",
     level_note="Trusted: Coq kernel + vm_compute; hand-written byte-level models; harness. Axioms: none.",
 )
 
@@ -407,7 +415,8 @@ PROPS['C14'] = dict(
                 "every vote pattern of at most f faulty observers among >= f+1 correct ones: the 2000-channel cap always holds; only changes "
                 "voted by correct nodes happen; one round performs exactly the first 5 removals and first 5 additions/replacements (pointwise); "
                 "the distance lists shrink by 5 each round, so after ceil(max(#remove,#add-or-replace)/5) rounds the set equals the target and "
-                "then stays equal. H_cap (ids of current and target together fit the cap) is the only size hypothesis; at the cap itself and "
+                "then stays equal; what a correct node sends always passes ValidateObservation (C14_honest_observation_validates, using that "
+                "VerifyChannelDefinitions is monotone in the channel set). H_cap (ids of current and target together fit the cap) is the only size hypothesis; at the cap itself and "
                 "for the stream-count limit (never refuses: known finding F1 outside H_streams) the harness decides on the real plugin chain. "
                 "The model's step is compared with the real Outcome on every generated round and the property predicate (votes accepted, no "
                 "refusal, bound met, cap) is evaluated on the real results.",
